@@ -23,6 +23,7 @@ func TestVerifC08Wire(t *testing.T) {
 		c08Part("tparams-values", "structured lattice over TransportParameters: every single field alternative and every pair of alternatives of two fields, both perspectives, Marshal -> Unmarshal; prefixes and single-byte substitutions of the encodings; session-ticket form likewise", c08TPValuesPart),
 		c08Part("tparams-table", "exhaustive: every sequence of <= 3 entries (with repetition = duplicates) from a table of raw parameters incl. perspective-forbidden and out-of-range ones, alone and followed by the mandatory parameters, for both perspectives", c08TPTablePart),
 		c08Part("frame-history", "history independence: ONE FrameParser per history, every sequence of <= 3 (frame, encryption level) letters x 8 flag combinations x SetAckDelayExponent(e) before any step; every parse result (accept/reject, lengths, every field) has to equal what a fresh parser with the same settings returns for that frame alone, and has to re-encode to the predicted length and parse back on the same parser", c08FrameHistoryPart),
+		c08Part("ack-delay", "exhaustive over the stated lattice of ACK Delay field values x every legal peer ack delay exponent 0..20: raw ACK / ACK_ECN frames parsed by a FrameParser after SetAckDelayExponent(e) at every encryption level; everything that parses has to re-encode (no panic, Append == Length) and the re-encoding has to parse again, on the same parser up to the delay and with the encoder's exponent in force including the delay", c08AckDelayPart),
 		c08Part("tparams-narrowing", "exhaustive over the narrowing lattice: every numeric transport parameter as raw bytes with the values next to its range rule's edge, every v + k*2^w (w in {8,16,32}) of them and the values that turn negative in a signed w-bit type, in minimal and 8-byte varint width; connection ID parameters of length n + 2^w; alone / before / after the mandatory parameters, both perspectives, and as session ticket parameters", c08TPNarrowPart),
 	}, func(msg string) { t.Fatal(msg) })
 }
